@@ -133,6 +133,13 @@ func init() {
 							c03OneCpus(c, dir, -1-si, before, o, cpus == 3, cpus)
 						}
 					}
+					// the same shape in a file that begins with a byte-order mark (klog does not accept such a file today;
+					// if a command succeeds on it, the mark is part of the first line and must survive like any other byte)
+					d := c03Shapes()[si]
+					d.Layout = docgen.DefaultLayout
+					for _, o := range ops {
+						c03OneCpus(c, dir, -1000-si, "\ufeff"+d.Text(), o, true, 1)
+					}
 				}
 				return
 			}
